@@ -1,0 +1,31 @@
+//go:build verif
+
+package plush
+
+import "github.com/gobuffalo/plush/v5/ast"
+
+// This file is compiled only with the "verif" build tag. It gives the
+// verification harness under /verif read-only access to state it cannot
+// reach through the public API. Nothing here is part of plush's API.
+
+// VerifProgram returns the parsed program shared by every Exec and Clone of
+// t (nil before a successful parse). Callers must treat it as read-only.
+func VerifProgram(t *Template) *ast.Program {
+	return t.program
+}
+
+// VerifResetCache empties the global template cache (cold start).
+func VerifResetCache() {
+	moot.Lock()
+	defer moot.Unlock()
+
+	cache = map[string]*Template{}
+}
+
+// VerifCacheLen returns the number of cached templates.
+func VerifCacheLen() int {
+	moot.Lock()
+	defer moot.Unlock()
+
+	return len(cache)
+}
